@@ -129,9 +129,18 @@ def _traverse_tree(nodes_iter, show, **kwargs):
 
     prev_level = node.level  # should be 0
 
+    # level of the node that was hidden last; everything below a hidden node is
+    # hidden as well, otherwise it would be attached to the wrong parent
+    hidden_level = None
+
     for node in nodes_iter:
+        if hidden_level is not None and node.level > hidden_level:
+            continue
+        hidden_level = None
+
         visible = _check_visibility(node.is_self_safe, node.is_safe, show=show)
         if not visible:
+            hidden_level = node.level
             continue
 
         level_diff = prev_level - node.level
